@@ -591,8 +591,8 @@ def parse_instr(toks, mod, line):
         cnt = None
         if p.pv() == ',' and p.pv(1) != 'align' and p.peek(1)[0] != 'meta':
             p.next(); cnt = p.tval()
-        p.skip_meta_tail()
-        return Instr('alloca', res, PTR(t), [cnt] if cnt else [], {'aty': t}, line)
+        tail = p.skip_meta_tail()
+        return Instr('alloca', res, PTR(t), [cnt] if cnt else [], {'aty': t, 'align': tail.get('align')}, line)
     if op == 'getelementptr':
         inb = p.eat('inbounds')
         bt = p.type(); p.expect(',')
